@@ -69,4 +69,35 @@ theorem C18_lookup_and_value_guards (s : Svc) (k : KTrial) (d : Bool) :
   unfold gsG mapByParamGuard setTrialValueGuard setTrialStateGuard
   cases hm : mapOf s.mapping k.name <;> cases hb : (syncId s k).bind (getTrial s.trials) <;> simp [hm, hb] <;> grind
 
+/-- the loop of `syncTrials` written with the generated guards: the first error ends it, each later Trial sees what the
+    earlier ones left -/
+def syncAllGen (d : Bool) (s : Svc) : List KTrial → Except Err Svc
+  | [] => .ok s
+  | k :: r => match syncGen s k d with
+    | .error e => .error e
+    | .ok s1 => syncAllGen d s1 r
+
+/-- **C18_loop_is_source**: for every request (any number of Trials, in any states, mapped or not) and every state of the
+    service, the model's loop is the iteration of the step that decides under the regenerated path conditions -/
+theorem C18_loop_is_source (d : Bool) (s : Svc) (ks : List KTrial) : syncAll s ks = syncAllGen d s ks := by
+  induction ks generalizing s with
+  | nil => simp [syncAll, syncAllGen]
+  | cons k r ih =>
+    simp only [syncAll, syncAllGen, C18_iteration_is_source s k d]
+    cases syncGen s k d with
+    | error e => rfl
+    | ok s1 => exact ih s1
+
+/-- **C18_request_is_source**: `GetSuggestions` after the study exists — conversion, the loop of generated steps, sampling -/
+theorem C18_request_is_source (d : Bool) (s : Svc) (ks : List KTrial) (sampled : List Params) :
+    request s ks sampled =
+      if ks.any (fun k => !k.convertible) then .error .convert
+      else match syncAllGen d s ks with
+        | .error e => .error e
+        | .ok s1 => .ok (sample s1 sampled) := by
+  unfold request; rw [C18_loop_is_source d s ks]
+  split
+  · rfl
+  · cases syncAllGen d s ks <;> rfl
+
 end Katib.Gen
